@@ -145,7 +145,11 @@ func (r *runner) flush() {
 	// the reference interpreter first: a program over its step budget is not run at all
 	var cases []gcase
 	var refs []RefResult
-	for _, g := range r.pending {
+	for gi, g := range r.pending {
+		if os.Getenv("C02_DEBUG") != "" {
+			os.WriteFile("/tmp/c02/lastprog.php", []byte(g.Prog.Source("")), 0o644)
+			fmt.Fprintf(os.Stderr, "ref %d\n", gi)
+		}
 		ref := RunRef(g.Prog, refBudgetN)
 		if ref.Status == "budget" {
 			c.Hit("skipped:reference-budget")
@@ -614,7 +618,11 @@ func corpus() []gcase {
 
 func Run(c *vh.Ctx) {
 	r := &runner{c: c, shrunk: map[string]int{}, pool: newPool(c.Workers)}
-	defer func() { fmt.Fprintln(os.Stderr, "closing pool"); r.pool.close(); fmt.Fprintln(os.Stderr, "pool closed") }()
+	defer func() {
+		fmt.Fprintln(os.Stderr, "closing pool")
+		r.pool.close()
+		fmt.Fprintln(os.Stderr, "pool closed")
+	}()
 	if c.ModelPath != "" {
 		m, err := vh.StartModel(c.ModelPath)
 		if err != nil {
@@ -664,6 +672,9 @@ func Run(c *vh.Ctx) {
 		n = v
 	}
 	for i := 0; i < n && !r.stopped; i++ {
+		if os.Getenv("C02_DEBUG") != "" {
+			fmt.Fprintf(os.Stderr, "gen %d\n", i)
+		}
 		r.add(gcase{Prog: Generate(c.Rand, GenOpts{MaxDepth: c.Rand.Range(2, 5)}), Stream: "main"})
 	}
 	for i := 0; i < n/10 && !r.stopped; i++ {
